@@ -292,10 +292,16 @@ func (m *SessionManager) Count() int {
 
 // CleanupExpired removes sessions that have been inactive
 func (m *SessionManager) CleanupExpired(timeout time.Duration) int {
+	return len(m.CleanupExpiredSessions(timeout))
+}
+
+// CleanupExpiredSessions removes sessions that have been inactive and returns
+// them, so that the caller can release what they held.
+func (m *SessionManager) CleanupExpiredSessions(timeout time.Duration) []*Session {
 	m.mu.Lock()
 	defer m.mu.Unlock()
 
-	var removed int
+	var removed []*Session
 	now := time.Now()
 
 	for id, session := range m.sessions {
@@ -306,7 +312,7 @@ func (m *SessionManager) CleanupExpired(timeout time.Duration) int {
 		if inactive {
 			delete(m.sessions, id)
 			m.unindexMAC(session.ClientMAC.String(), id)
-			removed++
+			removed = append(removed, session)
 		}
 	}
 
